@@ -79,7 +79,9 @@ fn main() {
     match driver.as_str() {
         "supply" => drivers::supply::run(&mut ctx),
         "big" => drivers::big::run(&mut ctx),
+        "timeops" => drivers::big::run_time(&mut ctx),
         "suite" => drivers::rta::run_suite(&mut ctx),
+        "scale" => drivers::rta::run_scale(&mut ctx),
         "extreme" => drivers::big::run_extreme(&mut ctx),
         "eta" => drivers::arrival::run_eta(&mut ctx),
         "steps" => drivers::arrival::run_steps(&mut ctx),
